@@ -39,6 +39,10 @@ var deepTemplates = map[string][2]string{
 
 func deepQuery(template, form string, depth int) string {
 	t := deepTemplates[template]
+	if form == "(a<" {
+		// one cast whose type is nested `depth` levels deep: (a<a<a<...
+		return t[0] + "(" + strings.Repeat("a<", depth) + t[1]
+	}
 	return t[0] + strings.Repeat(form, depth) + t[1]
 }
 
@@ -64,7 +68,12 @@ func cmdDeep(args []string) error {
 		if form == "udt" {
 			form = "{a:"
 		}
-		for _, depth := range []int{1 << 10, 1 << 16, 1 << 20, *maxDepth} {
+		depths := []int{1 << 10, 1 << 16, 1 << 20, *maxDepth}
+		if form == "casttype" {
+			// two bytes per level: a statement of 64 MiB is still a legal frame
+			form, depths = "(a<", []int{1 << 10, 1 << 20, *maxDepth, 2 * *maxDepth}
+		}
+		for _, depth := range depths {
 			p := deepProbe{Form: form, Template: tmpls[fi%len(tmpls)], Depth: depth}
 			p.Bytes = len(deepQuery(p.Template, form, depth))
 			ctx, cancel := context.WithTimeout(context.Background(), 180*time.Second)
